@@ -2,6 +2,7 @@ package agent
 
 import (
 	"Havoc/pkg/common/crypt"
+	"Havoc/pkg/common/parser"
 )
 
 // AES-256-CTR as an uninterpreted key stream: position-wise XOR with KS(key, iv, i), the
@@ -173,5 +174,69 @@ func H_c08_chain() {
 			verif_assert(cur.Body[8+i] == arg[i], "byte argument intact")
 		}
 	}
+	verif_witness()
+}
+
+// H_c08_relay: a frame relayed upward by parent A for pivot child B that carries k = 1..3
+// callbacks (one CTR stream under B's key after the first command/request id, as the Demon
+// builds it) is attributed to B, decrypted with B's key and gated by B's outstanding tasks:
+// every callback with an id outstanding for B completes B's task and talks on B's console;
+// ids outstanding only for A have no effect.
+func H_c08_relay() {
+	ts, A, B, _ := verifStateS()
+	A.Encryption.AESKey, A.Encryption.AESIv = verifChainKey(1)
+	B.Encryption.AESKey, B.Encryption.AESIv = verifChainKey(2)
+	k := 1 + nondet_choice("callbacks", 3)
+	rids := make([]uint32, k)
+	known := make([]bool, k)
+	var plain []byte
+	for i := 0; i < k; i++ {
+		rids[i] = uint32(0x1000 + i)
+		known[i] = nondet_bool("outstanding-for-child")
+		if known[i] {
+			B.Tasks = append(B.Tasks, Job{RequestID: rids[i], Command: COMMAND_SLEEP})
+		} else {
+			A.Tasks = append(A.Tasks, Job{RequestID: rids[i], Command: COMMAND_SLEEP})
+		}
+		body := verifPutBE32(verifPutBE32(nil, nondet_u32("delay")), nondet_u32("jitter"))
+		if i > 0 {
+			plain = verifPutBE32(plain, COMMAND_SLEEP)
+			plain = verifPutBE32(plain, rids[i])
+		}
+		plain = verifPutBytes(plain, body)
+	}
+	enc := crypt.XCryptBytesAES256(plain, B.Encryption.AESKey, B.Encryption.AESIv)
+	inner := verifPutBE32(nil, uint32(12+8+len(enc)))
+	inner = verifPutBE32(inner, DEMON_MAGIC_VALUE)
+	inner = verifPutBE32(inner, 0x5566aabb) // B
+	inner = verifPutBE32(inner, COMMAND_SLEEP)
+	inner = verifPutBE32(inner, rids[0])
+	inner = append(inner, enc...)
+	body := verifPutBytes(verifPutBE32(nil, DEMON_PIVOT_SMB_COMMAND), inner)
+	tasksA := len(A.Tasks)
+
+	A.TaskDispatch(77, COMMAND_PIVOT, parser.NewParser(body), ts)
+
+	for i := 0; i < k; i++ {
+		if known[i] {
+			verif_assert(!B.IsKnownRequestID(ts, rids[i], COMMAND_SLEEP), "a relayed callback for an id outstanding for the child completes the child's task")
+		}
+	}
+	verif_assert(len(A.Tasks) == tasksA, "a relayed callback is never gated by (or completed against) the relaying parent's tasks")
+	nKnown := 0
+	for i := 0; i < k; i++ {
+		if known[i] {
+			nKnown++
+		}
+	}
+	consolesB := 0
+	for _, c := range ts.Calls {
+		if c.Name == "AgentConsole" {
+			if c.ID == B.NameID {
+				consolesB++
+			}
+		}
+	}
+	verif_assert(consolesB == nKnown, "exactly the callbacks outstanding for the child produce output, attributed to the child session")
 	verif_witness()
 }
